@@ -51,13 +51,23 @@ structure Conv (V : Type) where
   eq : V → V → Bool
 
 /-- Identity of the object a Section was merged with (`Section._merged`): the document it lives
-    in (`none` = the same document / a free-standing tree) and the names from its root. -/
+    in (`none` = the same document / a free-standing tree) and the names from its root.
+    `record` is not part of the identity: it is the flag that travels with the reference down the
+    recursion of a merge (`Section._merge(section, strict, record)`, fix dccf4ba) - whether the
+    merge this reference is handed to leaves a trace in `_merged` / `_merged_attrs`. A reference
+    that is stored in `_merged` always has it set. -/
 structure Ref where
   url : Option Str
   path : List Str
-  deriving DecidableEq, Repr, Inhabited
+  record : Bool := true
+  deriving DecidableEq, Repr
+
+instance : Inhabited Ref := ⟨{ url := none, path := [] }⟩
 
 def Ref.child (r : Ref) (n : Str) : Ref := { r with path := r.path ++ [n] }
+
+/-- `new if record else old` -/
+def Ref.pick {α : Type} (r : Ref) (new old : α) : α := if r.record then new else old
 
 inductive Exc
   | valueError | keyError | attributeError
@@ -93,6 +103,19 @@ structure SecAttrs where
   /-- `_merged_attrs.get("reference")` -/
   filledRef : Option Str := none
   deriving DecidableEq, Repr
+
+/-- `self._merged is not None and self.can_be_merged`: the link or include of the Section is
+    resolved -/
+def SecAttrs.resolved (a : SecAttrs) : Bool := a.merged.isSome && (a.link.isSome || a.incl.isSome)
+
+/-- The record flag in force at a Section: what the caller handed down, and - `Section.merge`, the
+    public method, through which every recorded merge reaches a Section the destination has
+    already - `not (self._merged is not None and self.can_be_merged)`: a Section whose link or
+    include is resolved stays merged with the Section it refers to. Once off, the flag stays off
+    further down (`mine._merge(obj, strict, False)`). The link and include setters call
+    `_merge(new_section, False, True)` on a Section they have cleaned (not merged, hence not
+    resolved): the same value. -/
+def Ref.eff (r : Ref) (a : SecAttrs) : Ref := { r with record := r.record && !a.resolved }
 
 inductive Sec (V : Type) where
   | mk (a : SecAttrs) (props : List (PropT V)) (secs : List (Sec V))
@@ -323,10 +346,10 @@ def typeClashSecs (dsecs : List (Sec V)) : List (Sec V) → Bool
      | none => secNameIn dsecs o.name) || typeClashSecs dsecs os
 end
 
-/-- `mine = obj.clone(); mine._merged = obj` for a Section (clone is the identity on the
-    pure tree, `_merged_attrs` included; ids are not modelled) -/
+/-- `mine = obj.clone(); mine._merged = obj if record else None` for a Section (clone is the
+    identity on the pure tree, `_merged_attrs` included; ids are not modelled) -/
 def cloneMerged (r : Ref) (o : Sec V) : Sec V :=
-  .mk { o.attrs with merged := some r } o.props o.secs
+  .mk { o.attrs with merged := r.pick (some r) none } o.props o.secs
 
 /-- the loop over the source's Properties in `Section.merge` -/
 def mergeProps (cv : Conv V) (strict : Bool) : List (PropT V) → List (PropT V) →
@@ -345,7 +368,10 @@ def mergeProps (cv : Conv V) (strict : Bool) : List (PropT V) → List (PropT V)
       else mergeProps cv strict (dprops ++ [o]) os
 
 mutual
-/-- `Section.merge(section, strict)`; `r` identifies `section` (stored in `_merged`) -/
+/-- `Section.merge(section, strict)` / `Section._merge(section, strict, record)`; `r` identifies
+    `section` (stored in `_merged`) and carries the record flag handed down (`Ref.eff`: the flag in
+    force here). With the flag off the merge is carried out all the same, but `_merged` and
+    `_merged_attrs` stay as they are and the copies carry no `_merged` mark. -/
 def merge (cv : Conv V) (strict : Bool) : Ref → Sec V → Sec V → Sec V × Outcome
   | r, d, .mk sa sprops ssecs =>
     -- self.merge_check(section, strict)
@@ -357,20 +383,26 @@ def merge (cv : Conv V) (strict : Bool) : Ref → Sec V → Sec V → Sec V × O
       else
       -- filled = dict(self._merged_attrs)
       -- if self.definition is None and ...: self.definition = section.definition;
-      --   filled["definition"] = self.definition; same for reference; self._merged_attrs = filled
+      --   filled["definition"] = self.definition; same for reference
+      -- if record: self._merged_attrs = filled
       let a1 := { d.attrs with definition := fillText d.attrs.definition sa.definition
                                reference := fillText d.attrs.reference sa.reference
-                               filledDef := recFill d.attrs.definition sa.definition d.attrs.filledDef
-                               filledRef := recFill d.attrs.reference sa.reference d.attrs.filledRef }
+                               filledDef := (r.eff d.attrs).pick
+                                 (recFill d.attrs.definition sa.definition d.attrs.filledDef)
+                                 d.attrs.filledDef
+                               filledRef := (r.eff d.attrs).pick
+                                 (recFill d.attrs.reference sa.reference d.attrs.filledRef)
+                                 d.attrs.filledRef }
       -- for obj in section: Sections first ...
-      match mergeSecs cv strict r d.secs ssecs with
+      match mergeSecs cv strict (r.eff d.attrs) d.secs ssecs with
       | (secs', .raised e) => (.mk a1 d.props secs', .raised e)
       | (secs', .ok) =>
         -- ... then Properties
         match mergeProps cv strict d.props sprops with
         | (props', .raised e) => (.mk a1 props' secs', .raised e)
-        -- self._merged = section
-        | (props', .ok) => (.mk { a1 with merged := some r } props' secs', .ok)
+        -- if record: self._merged = section
+        | (props', .ok) =>
+          (.mk { a1 with merged := (r.eff d.attrs).pick (some r) d.attrs.merged } props' secs', .ok)
 /-- the loop over the source's sub-Sections in `Section.merge` -/
 def mergeSecs (cv : Conv V) (strict : Bool) : Ref → List (Sec V) → List (Sec V) →
     List (Sec V) × Outcome
@@ -378,12 +410,12 @@ def mergeSecs (cv : Conv V) (strict : Bool) : Ref → List (Sec V) → List (Sec
   | r, dsecs, o :: os =>
     match findSec dsecs o.name o.type with
     | some mine =>
-      -- mine.merge(obj, strict)
+      -- mine.merge(obj, strict) if record else mine._merge(obj, strict, False)
       match merge cv strict (r.child o.name) mine o with
       | (m', .raised e) => (replaceFirst (secMatch o.name o.type) m' dsecs, .raised e)
       | (m', .ok) => mergeSecs cv strict r (replaceFirst (secMatch o.name o.type) m' dsecs) os
     | none =>
-      -- mine = obj.clone(); mine._merged = obj; self.append(mine)
+      -- mine = obj.clone(); mine._merged = obj if record else None; self.append(mine)
       -- (SmartList.append: KeyError on a used name; excluded by `_merge_name_check` for a source
       -- with unique sibling names, theorem C13.merge_all_or_nothing)
       if secNameIn dsecs o.name then (dsecs, .raised .keyError)
